@@ -104,6 +104,12 @@ impl<'c, 's> Run<'c, 's> {
             // across the SMBus limit: totals 250..275
             self.st.probe("body-near-limit");
             limit_hint.saturating_sub(9) + self.ch.choose(28) as usize
+        } else if self.ch.choose(8) == 7 {
+            // anywhere between empty and the limit (powers of two and other mid-range lengths)
+            match self.ch.choose(3) {
+                0 => [15usize, 16, 31, 32, 63, 64, 65, 127, 128, 129, 200][self.ch.choose(11) as usize].min(limit_hint),
+                _ => self.ch.choose(limit_hint as u32 + 1) as usize,
+            }
         } else {
             self.ch.size(40) as usize
         }
@@ -351,8 +357,14 @@ impl<'c, 's> Run<'c, 's> {
         let a = [self.ch.choose(2) as u8, self.ch.choose(4) as u8, self.vbyte()];
         let mut uuid = [0u8; 16];
         if kind == 2 {
-            let v = self.rand_fill(16);
-            uuid.copy_from_slice(&v);
+            match self.ch.choose(5) {
+                1 => {}                  // the nil UUID is a UUID too
+                2 => uuid = [0xFF; 16],
+                _ => {
+                    let v = self.rand_fill(16);
+                    uuid.copy_from_slice(&v);
+                }
+            }
         }
         let list = match kind {
             4 => {
